@@ -670,18 +670,58 @@ def renameSafe (old new : Path) (t : M) : M × Out :=
 
 /-- `td.unflatten_keys(sep, inplace=True)`: every root key containing the separator is renamed to its split form with
 `safe=True`; a KeyError is re-raised as KeyError, anything else propagates; earlier renames persist -/
-def unflattenLoopM (sep : Char) : List String → M → M × Out
+def unflattenLoopM (sep : String) : List String → M → M × Out
   | [], t => (t, .ok)
   | k :: ks, t =>
-    if k.toList.contains sep then
-      match renameSafe [k] (C04.splitKey sep k) t with
+    if C04.sepIn sep k then
+      match renameSafe [k] (C04.splitKeyS sep k) t with
       | (t', .err e) => (t', .err e)
       | (t', .ok) => unflattenLoopM sep ks t'
     else unflattenLoopM sep ks t
 
-def unflattenM (sep : Char) : M → M × Out
+/-- the empty separator occurs in every name and `name.split("")` raises ValueError -/
+def unflattenM (sep : String) : M → M × Out
   | .leaf s d => (.leaf s d, .err .attr)
-  | .node bs dv ns kids => unflattenLoopM sep (kids.map (·.1)) (.node bs dv ns kids)
+  | .node bs dv ns kids =>
+    if sep = "" ∧ kids ≠ [] then (.node bs dv ns kids, .err .value)
+    else unflattenLoopM sep (kids.map (·.1)) (.node bs dv ns kids)
+
+/-! ### writes into existing storage: set_, set_at_, update_, update_at_, `td[index] = value`
+
+These calls write VALUES (tensordict/_td.py: _set_at_str / _set_at_tuple, utils.py:_set_item, `tensor[index] = value`); the
+only metadata they may create are the keys `td[index] = {new_key: ...}` auto-creates through a `_SubTensorDict`
+(`_SubTensorDict._set_str`: a zero tensor of shape `parent.batch_size + value.shape[batch_dims:]`, nested tensordicts
+expanded likewise). They are not transcribed line by line — what torch accepts as `tensor[index] = value` is outside this
+model — but by the ENVELOPE of their effect on the metadata: nothing that exists changes its batch size, device, names,
+key or place; entries may only be appended (when `allowNew`), and an appended entry must fit its container and be coherent.
+The step below takes the state observed after the call and accepts it exactly when it lies inside the envelope; the check
+sends every observed post-state through it. -/
+
+/-- decidable coherence of the entries of a container of batch size `bs` on device `dv` -/
+def coherentK (bs : Shape) (dv : Option Nat) : Kids → Bool
+  | [] => true
+  | (_, .leaf s d) :: r => takeEq s bs && (dv.isNone || dv == some d) && coherentK bs dv r
+  | (_, .node cbs cdv cns sub) :: r =>
+    takeEq cbs bs && (dv.isNone || dv == cdv) && (match cns with | none => true | some l => l.length == cbs.length) &&
+      coherentK cbs cdv sub && coherentK bs dv r
+
+/-- `kids'` is `kids` — same keys, same order, same metadata at every depth — followed (if `allowNew`) by new coherent entries -/
+def growsK (allowNew : Bool) (bs : Shape) (dv : Option Nat) : Kids → Kids → Bool
+  | [], new => (allowNew || new.isEmpty) && coherentK bs dv new
+  | (k, .leaf s d) :: r, (k', .leaf s' d') :: r' => k == k' && s == s' && d == d' && growsK allowNew bs dv r r'
+  | (k, .node cbs cdv cns sub) :: r, (k', .node cbs' cdv' cns' sub') :: r' =>
+    k == k' && cbs == cbs' && cdv == cdv' && cns == cns' && growsK allowNew cbs cdv sub sub' && growsK allowNew bs dv r r'
+  | _, _ => false
+
+/-- a write into existing storage observed to end in `obs`: accepted iff `obs` is inside the envelope -/
+def writeM (allowNew : Bool) (obs : M) : M → M × Out
+  | .leaf s d => (.leaf s d, .err .attr)
+  | .node bs dv ns kids =>
+    match obs with
+    | .node bs' dv' ns' kids' =>
+      if bs == bs' && dv == dv' && ns == ns' && growsK allowNew bs dv kids kids' then (.node bs dv ns kids', .ok)
+      else (.node bs dv ns kids, .err .runtime)
+    | .leaf .. => (.node bs dv ns kids, .err .runtime)
 
 /-- apply `f` to the node addressed by `handle` (a nested handle `td[handle]`), rebuilding the path -/
 def atPath (f : M → M × Out) : Path → M → M × Out
@@ -708,10 +748,11 @@ inductive Op where
   | refineNames (handle : Path) (names : DimNames)
   | update (handle : Path) (items : List (Path × PV))
   | updateTd (handle : Path) (payload : M)
+  | write (handle : Path) (allowNew : Bool) (observed : M)
   | autoBatch (handle : Path) (batchDims : Option Nat)
   | excludeIn (handle : Path) (keys : List Path)
   | flattenIn (handle : Path) (sep : String)
-  | unflattenIn (handle : Path) (sep : Char)
+  | unflattenIn (handle : Path) (sep : String)
   deriving Repr, Inhabited
 
 def clearM : M → M × Out
@@ -732,6 +773,7 @@ def step (t : M) : Op → M × Out
   | .refineNames h ns => atPath (refineNamesM ns) h t
   | .update h items => atPath (updateC (updMeasureC items) items) h t
   | .updateTd h m => atPath (updateTdM m) h t
+  | .write h an obs => atPath (writeM an obs) h t
   | .autoBatch h bd => atPath (autoBatchM bd) h t
   | .excludeIn h keys => atPath (excludeM keys) h t
   | .flattenIn h sep => atPath (flattenM sep) h t
